@@ -102,7 +102,7 @@ def header_edit(ctx, ht, f):
         ctx.ok('C12.2', f, writes[0], 'the edited copy is written as the new header')
     else:
         ctx.fail('C12.2', f, f.name, 'the edited header copy is never written')
-    check_sizes(ctx, ht, 'C12.2')
+    check_sizes(ctx, ht, 'C12.2', select=lambda g: g.name == 'convert_to_adv_sgz')
     ctx.floor('C12.2', 7)
 
 
